@@ -517,6 +517,20 @@ trait ArgumentReader {
     fn next(&mut self) -> io::Result<Option<Argument>>;
 }
 
+/// Turns the bytes of one argument into an `OsString` without altering them:
+/// input that is not valid UTF-8 (file names in a legacy encoding) must reach
+/// the command byte for byte.
+#[cfg(unix)]
+fn argument_from_bytes(bytes: &[u8]) -> OsString {
+    use std::os::unix::ffi::OsStringExt;
+    OsString::from_vec(bytes.to_vec())
+}
+
+#[cfg(not(unix))]
+fn argument_from_bytes(bytes: &[u8]) -> OsString {
+    String::from_utf8_lossy(bytes).into_owned().into()
+}
+
 struct WhitespaceDelimitedArgumentReader<R: Read> {
     rd: R,
     pending: Vec<u8>,
@@ -608,7 +622,7 @@ where
         }
 
         Ok(Some(Argument {
-            arg: String::from_utf8_lossy(&result[..]).into_owned().into(),
+            arg: argument_from_bytes(&result[..]),
             kind: if terminated_by_newline {
                 ArgumentKind::HardTerminated
             } else {
@@ -657,7 +671,7 @@ where
                     &buf[..]
                 };
                 break Some(Argument {
-                    arg: String::from_utf8_lossy(bytes).into_owned().into(),
+                    arg: argument_from_bytes(bytes),
                     kind: ArgumentKind::HardTerminated,
                 });
             }
